@@ -1524,8 +1524,18 @@ class Evaluator:
                 self.path.add_axiom(z3.Not(z3.SuffixOf(ch, r)))
                 self.path.add_axiom(z3.InRe(z3.SubString(t, z3.Length(r), z3.Length(t) - z3.Length(r)), z3.Star(z3.Re(ch))))
                 return VStr(r)
-        if name in ("strip", "lstrip") and not args:
-            self.oos(node, "strip() needs a contract-level abstraction")
+        if name == "strip" and not args:
+            # str.strip(): an uninterpreted function (the same symbol as specs.attrpath.str_strip), with the facts every
+            # use here needs: the result is a piece of the argument, and stripping nothing from the empty string
+            f = z3.Function("py_strip", z3.StringSort(), z3.StringSort())
+            r = f(t)
+            self.path.add_axiom(z3.Contains(t, r))
+            self.path.add_axiom(z3.Implies(t == S(""), r == S("")))
+            self.ctx.assumptions_used.add("str.strip() is an uninterpreted function (its result is a substring of the argument); the "
+                                          "specification uses the same function, so only agreement is proved, not what strip() removes")
+            return VStr(r)
+        if name == "lstrip" and not args:
+            self.oos(node, "lstrip() needs a contract-level abstraction")
         if name == "join":
             a = args[0]
             if isinstance(a, VStrJoin) and z3.is_string_value(t) and t.as_string() == "":
